@@ -12,6 +12,11 @@ Theorem C07_store_offsets : S_store_offsets.
 Proof. exact store_offsets. Qed.
 Print Assumptions C07_store_offsets.
 
+(** the store state machine (driven by either compressor) writes the closed form *)
+Theorem C07_store_closed : S_store_closed.
+Proof. exact store_closed. Qed.
+Print Assumptions C07_store_closed.
+
 (** reading the store's files sequentially ([BitStreamLabelingSeq]) returns every node's
     labels in successor order: both serializers (fixed width 1.., γ), both endiannesses,
     any flush padding.  The store is driven the same way by both compressors. *)
